@@ -121,9 +121,12 @@ pub fn exec(func: &str, a: &mut Args) -> String {
             guarded(|| match ConvexPolyhedron::from_convex_mesh(v, &i) {
                 Some(cp) => { let m = cp.mass_properties(d); format!("{} {} {} {}", fci3(&m), fm3(&m.reconstruct_inertia_matrix()), d3::fv(&m.principal_inertia()), fquat(&m.principal_inertia_local_frame)) }
                 None => "none".into() }) }
-        _ => "nofn".into(),
+        _ => ext::exec(func, a),
     }
 }
+
+#[path = "c13_ext.rs"]
+mod ext;
 
 /// `Zero::is_zero` is `*self == Self::zero()`; the trait is not re-exported, `na::zero` reaches `Zero::zero`
 fn num_is_zero2(p: &MP2) -> bool { *p == d2::na::zero::<MP2>() }
@@ -563,5 +566,7 @@ pub fn gen(r: &mut Rng, thorough: bool) -> Vec<(String, String)> {
             v.push(("mp2_sum".into(), format!("{} {}", k, tm.iter().map(hmp2).collect::<Vec<_>>().join(" "))));
         }
     }
+    // growth families (appended so that the stream above is unchanged)
+    ext::gen(r, thorough, &mut v);
     v
 }
